@@ -1,6 +1,6 @@
 (** Correspondence + monitor entry points for C07 (used by generated cases). *)
 From Coq Require Export QArith.
-From KaiV Require Export Run.Prelude Model.Reclaim Model.ReclaimSpec.
+From KaiV Require Export Run.Prelude Model.Reclaim Model.ReclaimSpec Model.ReclaimSession.
 
 (** what one call of the real code did *)
 Inductive obs := ObsTrue | ObsFalse | ObsPanic.
@@ -9,7 +9,7 @@ Inductive obs := ObsTrue | ObsFalse | ObsPanic.
     queues[f_eq], f_rem) *)
 Record fitcase := { f_rq : qid; f_eq : qid; f_rem : vec; f_obs : bool }.
 
-Record case := {
+Record fcase := {
   k_m : Q;                              (* saturation multiplier given to reclaimable.New *)
   k_qs : list queue;                    (* the queue map, sorted by id *)
   k_rc : reclaimer;
@@ -42,13 +42,13 @@ Definition is_res (o : obs) (r : result bool) : bool :=
 
 Definition implb' (a b : bool) : bool := if a then b else true.
 
-Definition fit_agrees (k : case) (f : fitcase) : bool :=
+Definition fit_agrees (k : fcase) (f : fitcase) : bool :=
   match lookup (k_qs k) (f_rq f), lookup (k_qs k) (f_eq f) with
   | Some rq, Some eq => Bool.eqb (fits_strategy (rc_res (k_rc k)) rq eq (f_rem f)) (f_obs f)
   | _, _ => false
   end.
 
-Definition model_agrees (k : case) : bool :=
+Definition fn_agrees (k : fcase) : bool :=
   let outcomes := map (reclaimable (k_m k) (k_qs k) (k_rc k)) (perms (k_victims k)) in
   is_res (k_can k) (can_reclaim (k_qs k) (k_rc k))
   && implb' (k_true k) (existsb (is_res ObsTrue) outcomes)
@@ -59,29 +59,35 @@ Definition model_agrees (k : case) : bool :=
 
 (** the clauses of the property for one examination order, recomputed from the scenario
     with the declarative functions of ReclaimSpec.v *)
-Definition clauses (k : case) (order : list (qid * list res)) : bool :=
-  victims_unprotected (k_qs k) (rc_queue (k_rc k)) [] (flatten order)
-  && nonpreemptible_within_quota (k_qs k) (k_rc k)
-  && (negb (antichain_keys (k_qs k) (map fst order)) || negb (Qgtb (k_m k) 0)
-      || saturation_order (k_m k) (k_qs k) (k_rc k) order).
+Definition clauses_on (m : Q) (qs : list queue) (rc : reclaimer) (order : list (qid * list res)) : bool :=
+  victims_unprotected qs (rc_queue rc) [] (flatten order)
+  && nonpreemptible_within_quota qs rc
+  && (negb (antichain_keys qs (map fst order)) || negb (Qgtb m 0)
+      || saturation_order m qs rc order).
 
-Definition fit_monitor (k : case) (f : fitcase) : bool :=
+Definition clauses (k : fcase) (order : list (qid * list res)) : bool :=
+  clauses_on (k_m k) (k_qs k) (k_rc k) order.
+
+(** the gate: the reclaimer's queue within fair share (and, not preemptible, within quota) *)
+Definition gate_ok (qs : list queue) (rc : reclaimer) : bool :=
+  let req := quantify (rc_res rc) in
+  match lookup qs (rc_queue rc) with
+  | Some q => within_allb (vadd (alloc_vec q) req) (fair_vec q)
+              && (rc_preemptible rc || within_allb (vadd (allocnp_vec q) req) (deserved_vec q))
+  | None => false
+  end.
+
+Definition fit_monitor (k : fcase) (f : fitcase) : bool :=
   match lookup (k_qs k) (f_eq f) with
   | Some eq => implb' (f_obs f && no_sentinelb (f_rem f)) (negb (protectedb eq (f_rem f)))
   | None => false
   end.
 
 (** The property itself, evaluated on what the real code returned. *)
-Definition monitor_ok (k : case) : bool :=
-  let req := quantify (rc_res (k_rc k)) in
+Definition fn_monitor (k : fcase) : bool :=
   (* CanReclaimResources said yes => reclaimer's queue within fair share (and quota) *)
   (match k_can k with
-   | ObsTrue =>
-       match lookup (k_qs k) (rc_queue (k_rc k)) with
-       | Some q => within_allb (vadd (alloc_vec q) req) (fair_vec q)
-                   && (rc_preemptible (k_rc k) || within_allb (vadd (allocnp_vec q) req) (deserved_vec q))
-       | None => false
-       end
+   | ObsTrue => gate_ok (k_qs k) (k_rc k)
    | _ => true
    end)
   (* Reclaimable said yes under some iteration order => under some order no protected queue
@@ -89,6 +95,146 @@ Definition monitor_ok (k : case) : bool :=
   && implb' (k_true k) (existsb (clauses k) (perms (k_victims k)))
   (* FitsReclaimStrategy said yes => the reclaimee queue was not protected *)
   && forallb (fit_monitor k) (k_fits k).
+
+(** * Whole sessions: the real allocate and reclaim actions on a generated cluster *)
+
+(** a pod of the session's snapshot; all pods of a job form one gang *)
+Record pod := {
+  p_id : positive;
+  p_job : positive;
+  p_queue : qid;        (* leaf queue of the job *)
+  p_res : res;          (* what the proportion plugin charges for it *)
+  p_preempt : bool;     (* the job is preemptible *)
+  p_alloc : bool;       (* allocated (running) in the snapshot *)
+}.
+
+(** the cache calls of one committed reclaim statement, in call order: Evict calls naming one
+    preemptor job, then TaskPipelined calls (the reclaimer's pods, and victims that were moved
+    to another node instead of being evicted for good) *)
+Record rcalls := { e_preemptor : positive; e_evicted : list positive; e_piped : list positive }.
+
+Record scase := {
+  z_m : Q;
+  z_qs : list queue;           (* tree, deserved quota, limit, fair share of the session; the
+                                  allocation fields are not used: they are recomputed below *)
+  z_pods : list pod;
+  z_bound : list positive;     (* pods bound / pipelined by the allocate action before reclaim *)
+  z_commits : list rcalls;
+}.
+
+Inductive case := Fn (k : fcase) | Ssn (s : scase).
+
+Definition memp (x : positive) (l : list positive) : bool := existsb (Pos.eqb x) l.
+Definition vzero : vec := mkvec 0 0 0.
+Definition rzero : res := {| r_cpu := 0; r_mem := 0; r_gpus := 0; r_mig := 0 |}.
+Definition radd (a b : res) : res :=
+  {| r_cpu := Qred (r_cpu a + r_cpu b); r_mem := Qred (r_mem a + r_mem b);
+     r_gpus := Qred (r_gpus a + r_gpus b); r_mig := Qred (r_mig a + r_mig b) |}.
+Definition vaddr (a b : vec) : vec :=
+  mkvec (Qred (v_cpu a + v_cpu b)) (Qred (v_mem a + v_mem b)) (Qred (v_gpu a + v_gpu b)).
+
+(** The truth at one point of the session: every queue's allocation recomputed from the pods
+    that are allocated at that point ([live]), each pod charged to its queue and to every
+    ancestor; the non-preemptible allocation from the pods of non-preemptible jobs. *)
+Definition truth (qs : list queue) (pods : list pod) (live : list positive) : list queue :=
+  map (fun q =>
+         let mine := filter (fun p => memp (p_id p) live && on_chain qs (p_queue p) (q_id q)) pods in
+         set_queue_alloc q
+           (fold_left (fun acc p => vaddr acc (quantify (p_res p))) mine vzero)
+           (fold_left (fun acc p => if p_preempt p then acc else vaddr acc (quantify (p_res p))) mine vzero))
+      qs.
+
+(** the victims of a commit: evicted and not placed again by the same statement; one entry per
+    job (all pods of a job are core pods of one gang: proportion.getVictimResources sums them),
+    grouped by leaf queue *)
+Definition victim_pods (pods : list pod) (e : rcalls) : list pod :=
+  filter (fun p => memp (p_id p) (e_evicted e) && negb (memp (p_id p) (e_piped e))) pods.
+
+Definition job_sums (ps : list pod) : list (positive * (qid * res)) :=
+  fold_left (fun acc p => match aget acc (p_job p) with
+                          | Some (q, r) => aset acc (p_job p) (q, radd r (p_res p))
+                          | None => aset acc (p_job p) (p_queue p, radd rzero (p_res p))
+                          end) ps [].
+
+Definition by_queue (js : list (positive * (qid * res))) : list (qid * list res) :=
+  fold_left (fun acc j => match aget acc (fst (snd j)) with
+                          | Some l => aset acc (fst (snd j)) (l ++ [snd (snd j)])
+                          | None => aset acc (fst (snd j)) [snd (snd j)]
+                          end) js [].
+
+(** the reclaimer of a commit: the preemptor job's pods that the statement placed *)
+Definition reclaimer_of (pods : list pod) (e : rcalls) : option reclaimer :=
+  let mine := filter (fun p => memp (p_id p) (e_piped e) && Pos.eqb (p_job p) (e_preemptor e)) pods in
+  match mine with
+  | [] => None
+  | p :: _ => Some {| rc_queue := p_queue p;
+                      rc_res := fold_left (fun a x => radd a (p_res x)) mine rzero;
+                      rc_preemptible := p_preempt p |}
+  end.
+
+(** every order in which the reclaimee map and the victims of one queue may have been examined
+    (bounded: beyond 5 victims only the orders of the queues, beyond 4 queues only one) *)
+Fixpoint inner_orders (v : list (qid * list res)) : list (list (qid * list res)) :=
+  match v with
+  | [] => [[]]
+  | (k, l) :: r => flat_map (fun l' => map (cons (k, l')) (inner_orders r)) (perms l)
+  end.
+Definition orders (v : list (qid * list res)) : list (list (qid * list res)) :=
+  if (List.length v <=? 4)%nat
+  then (if (List.length (flatten v) <=? 5)%nat then flat_map inner_orders (perms v) else perms v)
+  else [v].
+
+Definition veqb (a b : vec) : bool :=
+  forallb (fun r => Qeq_bool (vget a r) (vget b r)) all_res.
+Fixpoint same_alloc (a b : list queue) : bool :=
+  match a, b with
+  | [], [] => true
+  | x :: ra, y :: rb => Pos.eqb (q_id x) (q_id y) && veqb (alloc_vec x) (alloc_vec y)
+                        && veqb (allocnp_vec x) (allocnp_vec y) && same_alloc ra rb
+  | _, _ => false
+  end.
+
+(** One pass over the commits.  Before commit k the allocations are the truth recomputed from
+    the pods allocated at that point: snapshot pods, pods bound by allocate, minus the pods
+    evicted by commits 1..k-1, plus the pods those commits placed.
+    First component (refinement): the model's gate and validator, evaluated on that truth, accept
+    the reclaimer and the victim set the real action committed.
+    Second component (monitor): the clauses of C07 hold on that truth. *)
+Fixpoint session_loop (m : Q) (qs : list queue) (pods : list pod) (live : list positive)
+         (cs : list rcalls) : bool * bool :=
+  match cs with
+  | [] => (true, true)
+  | e :: r =>
+      let st := truth qs pods live in
+      let live' := filter (fun x => negb (memp x (e_evicted e))) live ++ e_piped e in
+      let here :=
+        match reclaimer_of pods e with
+        | None => (false, true)
+        | Some rc =>
+            let os := orders (by_queue (job_sums (victim_pods pods e))) in
+            let vs := by_queue (job_sums (victim_pods pods e)) in
+            (is_ok_true (can_reclaim st rc) && existsb (fun o => is_ok_true (reclaimable m st rc o)) os
+             (* the model's state update (ReclaimSession.apply_commit, the one the session theorems
+                are about) yields the truth recomputed from the pods after the commit *)
+             && same_alloc (apply_commit st {| c_rc := rc; c_victims := vs |}) (truth qs pods live'),
+             gate_ok st rc && existsb (clauses_on m st rc) os)
+        end in
+      let rest := session_loop m qs pods live' r in
+      (fst here && fst rest, snd here && snd rest)
+  end.
+
+Definition live0 (s : scase) : list positive :=
+  map p_id (filter p_alloc (z_pods s)) ++ z_bound s.
+
+Definition ssn_agrees (s : scase) : bool :=
+  fst (session_loop (z_m s) (z_qs s) (z_pods s) (live0 s) (z_commits s)).
+Definition ssn_monitor (s : scase) : bool :=
+  snd (session_loop (z_m s) (z_qs s) (z_pods s) (live0 s) (z_commits s)).
+
+Definition model_agrees (c : case) : bool :=
+  match c with Fn k => fn_agrees k | Ssn s => ssn_agrees s end.
+Definition monitor_ok (c : case) : bool :=
+  match c with Fn k => fn_monitor k | Ssn s => ssn_monitor s end.
 
 Definition run_mismatches (cs : list (nat * case)) : list nat := failing (fun k => negb (model_agrees k)) cs.
 Definition run_monitor (cs : list (nat * case)) : list nat := failing (fun k => negb (monitor_ok k)) cs.
